@@ -628,9 +628,6 @@ def check_array_stack(run, tree, only=None):
             run.unresolved(construct, fi.where(), "cannot fold: %s" % e)
 
 
-def _call(tree, hk, fn, *args, **kwargs):
-    """call an external model the way interpreted code would (Raised/ProgramRaised propagate)"""
-    return fn(*args, **kwargs)
 
 
 def check_numpy_stack(run, tree, only=None):
